@@ -35,10 +35,10 @@ func init() {
 			"(H1) no path panics on an empty id list (`ids[0]`, `ids[1:]` are only evaluated after a test of the length passed); a path that makes no request never returns a status-typed error (endpoints) and, in getFromAPI, a path that never calls Client.Do returns neither a status-typed error nor nil — conditions on the URL (its length, its content) are explored both ways; on every path of every exported *Datasource endpoint method that returns a nil error exactly one request (call of the request function getFromAPI) was made, on every other path at most one, none in a loop; HTTP requests are created/sent only in getFromAPI and helpers only it calls, which performs Client.Do exactly once before decoding, tests Do's error and returns it; every package-level wrapper performs exactly `DefaultDatasource.<same name>(<its parameters in order>)` and returns its results. " +
 			"(H2) every path reaching Client.Do has tested the limiter field against nil and, when it is non-nil, called Wait(ctx) on it before and found its error nil; when Wait fails that error is returned and no request is sent. " +
 			"(H3) executing getFromAPI for every status 100..599, every path with a successful Do ends in exactly the typed error of the table (404, 403, 410, 414, other non-200, the latter recording the status) and in the XML decode of the response body into the item parameter only for 200; NotFound, executed for nil, a foreign error and every error type of the package, is true exactly for the 404 type; the request is a GET created by http.NewRequest; on every endpoint path the request's error is tested and, when non-nil, returned unchanged. " +
-			"(H4) the URL argument of the request, evaluated symbolically on every path (constant format strings, concatenation, option and id-list loops summarised, each hole bound to a method parameter) and merged over the paths (configured vs default base URL, options given or not), equals the table entry; base-URL methods return the configured BaseURL exactly when non-empty, else the default; getFromAPI requests its URL parameter unchanged, without body. " +
+			"(H4) the URL argument of the request, evaluated symbolically on every path (constant format strings, concatenation, option and id-list loops summarised, each hole bound to a method parameter) and merged over the paths (configured vs default base URL, options given or not), equals the table entry; base-URL methods return the configured BaseURL exactly when non-empty, else the default; getFromAPI requests its URL parameter unchanged, without body. Every numeric argument in the URL is rendered injectively on its domain (arg-fidelity@<endpoint> <parameter>): integers in decimal, float coordinates with the shortest round-trip rendering or at least the 7 decimals of OSM's 1e-7 degree resolution; %f (6 decimals), fewer decimals, 32-bit renderings and integers passed through float64 are violations (today: the bbox of Map and Notes, recorded as known findings). " +
 			"(H5) every path returning a nil error returns the table's field of the fresh empty document that was the decode target; element [0] is returned only on paths whose passed tests imply len == 1. " +
 			"(H6) At/Limit/MaxDaysClosed construct an option holding the argument whose apply method appends exactly `at=` (UTC, layout 2006-01-02T15:04:05Z), `limit=` (appended exactly for 1..10000) and `closed=`; option-joining functions join with `&` and return option errors. " +
-			"NOT decided: that encoding/xml returns the server's elements unmodified; URL escaping beyond the presence of QueryEscape on the search query; precision of %f for bounding boxes (6 decimals); that the http.Client follows the request unchanged (redirects, transport); trailing `?`/`&` when no option is given (accepted by the table); the text of error messages and the URL recorded in the typed errors; code shapes outside the executor's model (goroutines, function literals that escape to code that is not inlined, method values, labelled jumps, general loops, pointer-declared or shared strings.Builder/bytes.Buffer, url.Values, tables filled by assignments (init functions) or searched with sort.Search, indexed writes into presized slices, writes through pointers or to fields) are reported as undecided, not accepted.",
+			"NOT decided: that encoding/xml returns the server's elements unmodified; URL escaping beyond the presence of QueryEscape on the search query; that the http.Client follows the request unchanged (redirects, transport); trailing `?`/`&` when no option is given (accepted by the table); the text of error messages and the URL recorded in the typed errors; code shapes outside the executor's model (goroutines, function literals that escape to code that is not inlined, method values, labelled jumps, general loops, pointer-declared or shared strings.Builder/bytes.Buffer, url.Values, tables filled by assignments (init functions) or searched with sort.Search, indexed writes into presized slices, writes through pointers or to fields) are reported as undecided, not accepted.",
 		Assumptions: []string{"go/types (x/tools v0.29.0)", "tables/api06.json transcribes the OSM API v0.6 documentation", "fmt.Sprintf/Sprint/Fprintf verbs %d/%f/%s/%v, strings.Join, strings.Builder/bytes.Buffer writes, strconv.AppendInt/FormatInt/Itoa, url.QueryEscape, time.Time.UTC/Format, append/len/make behave as documented", "errors of the package do not wrap other errors (errors.As is modelled as the type test of its target)", "net/http sends the request it is given; encoding/xml decodes faithfully", "every option appends a non-empty key=value string (H6), so `options given` and `option string non-empty` coincide", "function values, interface calls other than the option apply methods and the limiter, and library calls that are not modelled yield unknown values; they cannot alter locals of the analysed function"},
 		LevelText:   "Structural necessary conditions of the request/response contract, decided for every endpoint method, every wrapper, every status value 100..599 and every path of getFromAPI by symbolic execution with helpers inlined: one request per call, limiter before the request, status-to-error table, URL shape equal to the external API v0.6 table with parameter-to-position binding, single-element guards, option encodings. Fidelity of the XML decode and of net/http is not decided.",
 		LevelNote:   "Trusts the Go type checker, the model of the symbolic executor (c20_sx*.go), the documented behaviour of fmt/strings/strconv/net/url/time used in URL building, and the transcription of the API v0.6 documentation in tables/api06.json.",
@@ -48,7 +48,7 @@ func init() {
 			{ID: "H1", Floor: 54, Doc: "one request per call; HTTP only in the request function (and its private helpers); wrappers delegate to the same-named method", Run: c20H1},
 			{ID: "H2", Floor: 2, Doc: "limiter wait precedes the request and its error returns", Run: c20H2},
 			{ID: "H3", Floor: 35, Doc: "status table per status 100..599, decode only on 200, NotFound true only for the 404 type, GET, errors propagated", Run: c20H3},
-			{ID: "H4", Floor: 28, Doc: "URL shape per endpoint equals tables/api06.json", Run: c20H4},
+			{ID: "H4", Floor: 56, Doc: "URL shape per endpoint equals tables/api06.json", Run: c20H4},
 			{ID: "H5", Floor: 36, Doc: "results come from the decoded document; element [0] only where the tests passed imply exactly one element", Run: c20H5},
 			{ID: "H6", Floor: 8, Doc: "at=, limit= (1..10000), closed= options and their joining", Run: c20H6},
 		},
@@ -191,6 +191,9 @@ type c20Hole struct {
 	pname string
 	field string
 	verb  string // non-canonical formatting directive ("" when canonical for the type)
+	num   bool   // rendered as a number
+	fl    string // float rendering class (c20FloatClass): "f6", "f7", "shortest", ...; "" for integers
+	flsrc string // the float rendering as spelled in the source (for diagnostics)
 }
 
 type c20Tok struct {
@@ -326,7 +329,7 @@ func c20ParamList(sig *types.Signature, ep *c20Endpoint) string {
 // c20Mutants is the sensitivity suite (c20_mutants*.go).
 func c20Mutants() []core.Mutant {
 	var out []core.Mutant
-	for _, l := range [][]core.Mutant{c20Mutants1(), c20Mutants2(), c20Mutants3()} {
+	for _, l := range [][]core.Mutant{c20Mutants1(), c20Mutants2(), c20Mutants3(), c20Mutants4()} {
 		out = append(out, l...)
 	}
 	return out
